@@ -7,6 +7,17 @@ for l in open('/verif/properties.jsonl'):
     if p['id'] == pid:
         break
 wt = "/tmp/seed-%s-%s" % (pid, n)
+avoid = ""
+import os
+for k in range(1, int(n)):
+    m = "/verif/seeded/%s-%d/meta.json" % (pid, k)
+    if os.path.exists(m):
+        try:
+            avoid += "\n  - " + json.load(open(m)).get("summary", "")[:600]
+        except Exception:
+            pass
+if avoid:
+    avoid = "\nAnother person has already done the following change(s) for this property; choose a DIFFERENT mechanism, in a different function and preferably a different file or layer of the system:" + avoid + "\n"
 print(f"""You are testing a verification effort from the outside. You work ONLY in the git worktree {wt} (a checkout of the Go project apmckinlay/gsuneido: the gSuneido language compiler and interpreter plus its embedded transactional database, btree indexes, query optimizer and client/server DBMS). Do NOT read or touch /verif or /repo (the worktree is your copy). 
 
 Property that must hold for every input / schedule / history:
@@ -14,7 +25,7 @@ Property that must hold for every input / schedule / history:
   {p['statement']}
   (quantified over: {p['quantifier']['text']})
 
-Task: make ONE realistic change to the non-test source (the kind of slip, wrong boundary, dropped step or incomplete refactoring a developer could plausibly commit; roughly 1-15 changed lines, possibly two cooperating sites that each look fine alone) that BREAKS this property while the project still compiles and its existing tests still pass. The break must need something specific to manifest — a particular interleaving, a crash/fault at a particular point, a multi-step sequence of operations, an unusual input or boundary value, or a specific combination of features — NOT something ordinary use would expose at once. Explore the code to find where the property is actually implemented before choosing. Then write a demonstration: a new Go test file (in the appropriate package of the worktree) or a small program that FAILS with your change and PASSES without it.
+Task: make ONE realistic change to the non-test source (the kind of slip, wrong boundary, dropped step or incomplete refactoring a developer could plausibly commit; roughly 1-15 changed lines, possibly two cooperating sites that each look fine alone) that BREAKS this property while the project still compiles and its existing tests still pass. The break must need something specific to manifest — a particular interleaving, a crash/fault at a particular point, a multi-step sequence of operations, an unusual input or boundary value, or a specific combination of features — NOT something ordinary use would expose at once. Explore the code to find where the property is actually implemented before choosing.{avoid} Then write a demonstration: a new Go test file (in the appropriate package of the worktree) or a small program that FAILS with your change and PASSES without it.
 
 Deliverables, in {wt}/SEED/ :
   patch.diff      `git diff` of the source change only (no test files, no cert files)
